@@ -202,13 +202,14 @@ PROPS["C13"] = dict(
 )
 
 PROPS["C11"] = dict(
-    modules=["Sth.Props.C01", "Sth.Props.C08", "Sth.Props.C11", "Sth.Props.C13H", "Sth.Props.C11D", "Sth.Props.C11E", "Sth.Props.C11F", "Sth.Props.C11G"],
+    modules=["Sth.Props.C01", "Sth.Props.C08", "Sth.Props.C11", "Sth.Props.C13H", "Sth.Props.C11D", "Sth.Props.C11E", "Sth.Props.C11F", "Sth.Props.C11G", "Sth.Props.C11P"],
     theorems=list(CORE_RL) + ["Sth.C11_index_file_released", "Sth.C11_index_released_stays", "Sth.C11_index_reap_free_file", "Sth.C11_primary_file_released",
                                 "Sth.C11_no_growth_index", "Sth.C11_no_growth_primary", "Sth.C11_relocation_pools_a_copy", "Sth.C11_reap_pools_at_most_two",
                                 "Sth.C11_fixed_point_primary", "Sth.C11_low_use_visit", "Sth.C11_primary_file_released_unconditional",
                                 "Sth.C11_low_use_drained_bound", "Sth.C11_low_use_round", "Sth.C11_index_cycle_visits_all", "Sth.C11_index_cycle_stale_resume",
                                 "Sth.C11_primary_files_short", "Sth.C11_visited_stable", "Sth.C11_primary_file_released_closed",
-                                "Sth.C11_cut_handover_pass_file_released"],
+                                "Sth.C11_cut_handover_pass_file_released",
+                                "Sth.C11_primary_files_short_all", "Sth.C11_visited_stable_all", "Sth.C11_primary_file_released_all"],
     runs=[dict(engine="seq", quick=200, thorough=10000, extra=["-profile", "c11"], nontrivial=["c11-dead-primary-files", "c11-unreferenced-index-files"]),
           dict(engine="crash", quick=48, thorough=600, extra=["-profile", "c11d"], nontrivial=["c11-drain-after-recovery"])],
     crash_lines=True,
@@ -387,5 +388,5 @@ PROPS["C03"]["facts"] = dict(modules=["Sth.Obligations.FactsC03"], theorems=["St
 PROPS["C05"]["facts"] = dict(modules=["Sth.Obligations.FactsC05", "Sth.Obligations.FactsC05b"], theorems=["Sth.Obligations.C05_mutators_atomic", "Sth.Obligations.C05_data_path_guarded"])
 PROPS["C13"]["facts"] = dict(modules=["Sth.Obligations.FactsC05"], theorems=["Sth.Obligations.C05_mutators_atomic"])
 PROPS["C12"]["facts"] = dict(modules=["Sth.Obligations.FactsC12"], theorems=["Sth.Obligations.C12_flush_paths", "Sth.Obligations.C12_register_atomic"])
-PROPS["C14"]["facts"] = dict(modules=["Sth.Obligations.FactsC14"], theorems=["Sth.Obligations.C14_methods_atomic"])
+PROPS["C14"]["facts"] = dict(modules=["Sth.Obligations.FactsC14"], theorems=["Sth.Obligations.C14_methods_atomic", "Sth.Obligations.C14_methods_single_section"])
 PROPS["C17"]["facts"] = dict(modules=["Sth.Obligations.FactsC17"], theorems=["Sth.Obligations.C17_done_channels", "Sth.Obligations.C17_handshake_locals_not_shadowed"])
